@@ -182,3 +182,113 @@ Proof.
   eapply aeq_trans; [apply abs_after2|]. eapply aeq_trans; [|apply aeq_sym; apply abs_after].
   rewrite (classify_unset_whole kd n Hn). apply absorb_remove. exact Ht.
 Qed.
+
+(* ---- locality and commutation of operations on different headers ---- *)
+Definition on_header (cn : bytes) (s : sop) : bool :=
+  match s with
+  | SRead c _ _ | SWrite c _ | SWriteField c _ _ | SAppend c _ | SRemove c | SRemoveField c _
+  | SCookieWrite c _ _ | SCookieRemove c _ => beq c cn
+  | SRefuse | SUnmod => true
+  | SRemovePrefix _ => false
+  end.
+
+Lemma upd_other {A} (f : bytes -> A) k v n : beq k n = false -> upd f k v n = f n.
+Proof. intros H. unfold upd. rewrite H. reflexivity. Qed.
+
+(* what a step on header c1 does elsewhere: nothing; and it only looks at c1 *)
+Lemma step_frame a c s n : on_header c s = true -> beq c n = false ->
+  a_vals (fst (sstep a s)) n = a_vals a n /\ a_asg (fst (sstep a s)) n = a_asg a n.
+Proof.
+  intros Hs Hn.
+  destruct s as [c' key ck|c' w|c' key w|c' s|c'|c' key|p|c' key s|c' key| |]; cbn [on_header] in Hs;
+    try discriminate; try (apply beq_eq in Hs; subst c'); cbn [sstep fst].
+  - split; reflexivity.
+  - destruct w; cbn [fst a_vals a_asg]; rewrite ?upd_other by exact Hn; split; reflexivity.
+  - cbn [a_vals a_asg]; rewrite ?upd_other by exact Hn; split; reflexivity.
+  - cbn [a_vals a_asg]; rewrite ?upd_other by exact Hn; split; reflexivity.
+  - cbn [a_vals a_asg]; rewrite ?upd_other by exact Hn; split; reflexivity.
+  - cbn [a_vals a_asg]; rewrite ?upd_other by exact Hn; split; reflexivity.
+  - cbn [a_vals a_asg]; rewrite ?upd_other by exact Hn; split; reflexivity.
+  - destruct (all_vals a c) as [|l0 ls]; [split; reflexivity|].
+    destruct (remove_cookie (l0 :: ls) key); cbn [a_vals a_asg]; rewrite ?upd_other by exact Hn; split; reflexivity.
+  - split; reflexivity.
+  - split; reflexivity.
+Qed.
+
+Definition agree_at (a b : astate) (c : bytes) : Prop := a_vals a c = a_vals b c /\ a_asg a c = a_asg b c.
+
+Lemma upd_same {A} (f : bytes -> A) k v : upd f k v k = v.
+Proof. unfold upd. rewrite beq_refl. reflexivity. Qed.
+
+(* ... and a step on header c only looks at header c *)
+Lemma step_local a b c s : on_header c s = true -> agree_at a b c ->
+  snd (sstep a s) = snd (sstep b s) /\ agree_at (fst (sstep a s)) (fst (sstep b s)) c.
+Proof.
+  intros Hs [Hv Ha].
+  assert (Hf : first_val a c = first_val b c) by (unfold first_val; rewrite Hv; reflexivity).
+  assert (Hall : all_vals a c = all_vals b c) by (unfold all_vals; rewrite Hv; reflexivity).
+  destruct s as [c' key ck|c' w|c' key w|c' s|c'|c' key|p|c' key s|c' key| |]; cbn [on_header] in Hs;
+    try discriminate; try (apply beq_eq in Hs; subst c'); cbn [sstep fst snd]; unfold agree_at.
+  - rewrite Hf, Ha, Hall. repeat split; assumption.
+  - destruct w; cbn [fst snd a_vals a_asg]; rewrite !upd_same; repeat split.
+  - cbn [a_vals a_asg]; rewrite !upd_same, Hf; repeat split.
+  - cbn [a_vals a_asg]; rewrite !upd_same, Hv; repeat split; assumption.
+  - cbn [a_vals a_asg]; rewrite !upd_same; repeat split.
+  - cbn [a_vals a_asg]; rewrite !upd_same, Hf; repeat split.
+  - cbn [a_vals a_asg]; rewrite !upd_same, Hall; repeat split; assumption.
+  - rewrite Hall. destruct (all_vals b c) as [|l0 ls]; [repeat split; assumption|].
+    destruct (remove_cookie (l0 :: ls) key); cbn [a_vals a_asg]; rewrite !upd_same; repeat split; assumption.
+  - repeat split; assumption.
+  - repeat split; assumption.
+Qed.
+
+Theorem sstep_commute a c1 c2 s1 s2 : on_header c1 s1 = true -> on_header c2 s2 = true -> beq c1 c2 = false ->
+  snd (sstep (fst (sstep a s1)) s2) = snd (sstep a s2) /\
+  snd (sstep (fst (sstep a s2)) s1) = snd (sstep a s1) /\
+  aeq (fst (sstep (fst (sstep a s1)) s2)) (fst (sstep (fst (sstep a s2)) s1)).
+Proof.
+  intros H1 H2 H12. assert (H21 : beq c2 c1 = false) by (rewrite beq_sym; exact H12).
+  assert (G2 : agree_at (fst (sstep a s1)) a c2) by (exact (step_frame a c1 s1 c2 H1 H12)).
+  assert (G1 : agree_at (fst (sstep a s2)) a c1) by (exact (step_frame a c2 s2 c1 H2 H21)).
+  destruct (step_local _ _ c2 s2 H2 G2) as [O2 L2]. destruct (step_local _ _ c1 s1 H1 G1) as [O1 L1].
+  split; [exact O2|]. split; [exact O1|].
+  assert (K : forall n, a_vals (fst (sstep (fst (sstep a s1)) s2)) n = a_vals (fst (sstep (fst (sstep a s2)) s1)) n /\
+                        a_asg (fst (sstep (fst (sstep a s1)) s2)) n = a_asg (fst (sstep (fst (sstep a s2)) s1)) n).
+  { intros n. destruct (beq c1 n) eqn:E1.
+    - apply beq_eq in E1. subst n.
+      destruct (step_frame (fst (sstep a s1)) c2 s2 c1 H2 H21) as [F1 F2]. rewrite F1, F2.
+      destruct L1 as [L1v L1a]. rewrite L1v, L1a. split; reflexivity.
+    - destruct (beq c2 n) eqn:E2.
+      + apply beq_eq in E2. subst n.
+        destruct (step_frame (fst (sstep a s2)) c1 s1 c2 H1 H12) as [F1 F2]. rewrite F1, F2.
+        destruct L2 as [L2v L2a]. rewrite L2v, L2a. split; reflexivity.
+      + destruct (step_frame (fst (sstep a s1)) c2 s2 n H2 E2) as [F1 F2].
+        destruct (step_frame a c1 s1 n H1 E1) as [F3 F4].
+        destruct (step_frame (fst (sstep a s2)) c1 s1 n H1 E1) as [F5 F6].
+        destruct (step_frame a c2 s2 n H2 E2) as [F7 F8].
+        rewrite F1, F2, F3, F4, F5, F6, F7, F8. split; reflexivity. }
+  split; intros n; apply K.
+Qed.
+
+(* ---- on the concrete store: two operations on different headers commute, in their replies and
+   for every later history ---- *)
+Lemma reply_after kd st o1 o2 :
+  snd (step kd (after kd st o1) o2) = snd (sstep (fst (sstep (abs st) (classify kd o1))) (classify kd o2)).
+Proof.
+  rewrite (proj1 (refine_step kd (after kd st o1) o2)).
+  exact (proj1 (sstep_ext _ _ (classify kd o2) (abs_after kd st o1))).
+Qed.
+
+Theorem ops_commute kd st o1 o2 c1 c2 h :
+  on_header c1 (classify kd o1) = true -> on_header c2 (classify kd o2) = true -> beq c1 c2 = false ->
+  snd (step kd (after kd st o1) o2) = snd (step kd st o2) /\
+  snd (step kd (after kd st o2) o1) = snd (step kd st o1) /\
+  snd (run kd (after kd (after kd st o1) o2) h) = snd (run kd (after kd (after kd st o2) o1) h).
+Proof.
+  intros H1 H2 H12.
+  destruct (sstep_commute (abs st) c1 c2 _ _ H1 H2 H12) as (O2 & O1 & S).
+  split; [rewrite reply_after, O2; symmetry; exact (proj1 (refine_step kd st o2))|].
+  split; [rewrite reply_after, O1; symmetry; exact (proj1 (refine_step kd st o1))|].
+  apply abs_equiv_observations.
+  eapply aeq_trans; [apply abs_after2|]. eapply aeq_trans; [|apply aeq_sym; apply abs_after2]. exact S.
+Qed.
